@@ -17,9 +17,10 @@ CONSTANTS
 
 ---------------------------------------------------------------------------
 \* words
-Vocab == {"FOO", "BAR", "A", "B", "AB", "X2", "BIG"}
+\* (A, AB, ABX: each a CHARACTER prefix of the next without being a shared WORD)
+Vocab == {"FOO", "BAR", "A", "B", "AB", "ABX", "X2", "BIG"}
 Lower == [w \in Vocab |-> CASE w = "FOO" -> "foo" [] w = "BAR" -> "bar" [] w = "A" -> "a" [] w = "B" -> "b"
-                            [] w = "AB" -> "ab" [] w = "X2" -> "x2" [] w = "BIG" -> "big"]
+                            [] w = "AB" -> "ab" [] w = "ABX" -> "abx" [] w = "X2" -> "x2" [] w = "BIG" -> "big"]
 
 RECURSIVE JoinLower(_)
 JoinLower(ws) == IF ws = <<>> THEN ""
